@@ -93,7 +93,7 @@ def _cat(parts, empty):
     return out
 
 
-def _run(tr, uni, astext, a, b, op0, op1, ret):
+def _run(tr, uni, astext, a, b, op0, op1, ret, op2=None):
     tr = pick(tr, 0, 3)
     pad = 0 if ret is None else ret        # unicode mode: every non-empty text encodes to len(text) + pad bytes
     we = WriteEnd()
@@ -110,7 +110,10 @@ def _run(tr, uni, astext, a, b, op0, op1, ret):
     rets = []
     linesep = sp.linesep
     with patched(PS, os=_OS, time=clk), patched(FD, os=_OS):
-        for op, payload in ((pick(op0, 0, 3), a), (pick(op1, 0, 3), b)):
+        calls = [(pick(op0, 0, 3), a), (pick(op1, 0, 3), b)]
+        if op2 is not None:
+            calls.append((pick(op2, 0, 3), a))
+        for op, payload in calls:
             nw = len(we.writes)
             if op == 0:
                 r = sp.send(payload)
@@ -174,16 +177,18 @@ def _is_bytes(p):
 
 @obligation(params=dict(tr=Int(0, 3), a=Text(3), b=Text(3), op0=Int(0, 3), op1=Int(0, 3), ret=OptInt(0, 9)),
             tags={2: 'pty', 3: 'fd', 4: 'piped subprocess', 5: 'socket'}, timeout=600, split=('tr',),
-            note='(ret: extra bytes per encoded text) unicode mode: two calls out of send/sendline/write/writelines with symbolic text (any code points)')
-def S1_unicode(tr, a, b, op0, op1, ret):
-    return _run(tr, True, True, a, b, op0, op1, ret)
+            thorough=dict(params=dict(op2=Int(0, 3), a=Text(4), b=Text(4)), timeout=1800, split=('tr', 'op0')),
+            note='(ret: extra bytes per encoded text) unicode mode: two calls (thorough: three) out of send/sendline/write/writelines with symbolic text (any code points)')
+def S1_unicode(tr, a, b, op0, op1, ret, op2=None):
+    return _run(tr, True, True, a, b, op0, op1, ret, op2)
 
 
 @obligation(params=dict(tr=Int(0, 3), a=Bytes(3), b=Bytes(3), op0=Int(0, 3), op1=Int(0, 3), ret=OptInt(0, 9)),
             tags={2: 'pty', 3: 'fd', 4: 'piped subprocess', 5: 'socket'}, timeout=600, split=('tr',),
+            thorough=dict(params=dict(op2=Int(0, 3), a=Bytes(4), b=Bytes(4)), timeout=1800, split=('tr', 'op0')),
             note='bytes mode, bytes arguments (all byte values): written unchanged')
-def S2_bytes(tr, a, b, op0, op1, ret):
-    return _run(tr, False, False, a, b, op0, op1, ret)
+def S2_bytes(tr, a, b, op0, op1, ret, op2=None):
+    return _run(tr, False, False, a, b, op0, op1, ret, op2)
 
 
 @obligation(params=dict(tr=Int(0, 3), a=Text(3, maxch=128), b=Text(3, maxch=128), op0=Int(0, 3), op1=Int(0, 3)),
